@@ -141,6 +141,56 @@ class Continue(Expression):
         return []
 
 
+_STRING_ESCAPES = {
+    "\n": "\\n",
+    "\r": "\\r",
+    "\t": "\\t",
+    "\x08": "\\b",
+    "\x0c": "\\f",
+}
+
+
+def _choose_quote(text: str) -> str:
+    """Return the quote character `repr()` would choose for _text_."""
+    return '"' if "'" in text and '"' not in text else "'"
+
+
+def _escape_string(value: str, quote: str) -> str:
+    """Return _value_ escaped for use inside a string literal delimited by _quote_.
+
+    Only escape sequences understood by the lexer are produced. `${` is escaped
+    so as not to start an interpolated expression.
+    """
+    buf: list[str] = []
+    length = len(value)
+    for index, ch in enumerate(value):
+        if ch in (quote, "\\"):
+            buf.append("\\" + ch)
+        elif ch == "$" and index + 1 < length and value[index + 1] == "{":
+            buf.append("\\$")
+        elif ch in _STRING_ESCAPES:
+            buf.append(_STRING_ESCAPES[ch])
+        elif ch.isprintable():
+            buf.append(ch)
+        else:
+            code_point = ord(ch)
+            if code_point > 0xFFFF:
+                code_point -= 0x10000
+                buf.append(
+                    f"\\u{0xD800 + (code_point >> 10):04x}"
+                    f"\\u{0xDC00 + (code_point & 0x3FF):04x}"
+                )
+            else:
+                buf.append(f"\\u{code_point:04x}")
+    return "".join(buf)
+
+
+def _string_repr(value: str) -> str:
+    """Return _value_ as a Liquid string literal."""
+    quote = _choose_quote(value)
+    return f"{quote}{_escape_string(value, quote)}{quote}"
+
+
 T = TypeVar("T")
 
 
@@ -207,6 +257,9 @@ class StringLiteral(Literal[str]):
 
     def __init__(self, token: TokenT, value: str):
         super().__init__(token, value)
+
+    def __str__(self) -> str:
+        return _string_repr(self.value)
 
     def __eq__(self, other: object) -> bool:
         return isinstance(other, StringLiteral) and self.value == other.value
